@@ -7,11 +7,16 @@ Spec:   `Got.Spec.Bytes` — ghost state `(W, r, c)`: `W` all bytes written sinc
         `c` cursor, `r ≤ c ≤ |W|`; `BufferSpec` / `StreamSpec` = one step of the abstract seekable FIFO (reads return
         `W[c..]`, writes append to `W`, compaction only advances `r` up to `c`, Seek fails without change or moves `c`
         inside `[r, |W|]`, no outcome is a panic); `BufferRel` / `StreamRel` = `buf = W.drop r ∧ off = c - r`.
+Translator tie (OctetsStream half): `Got.Generated.AstIox` holds the MiniGoBytes terms tools/srcfacts re-translates from
+        /repo/iox/octets_stream.go on every run; the `C13_translated_source_*` theorems at the end of this file are about
+        the interpretation (`Got.Model.MiniGoBytes.run table "OctetsStream.<Method>"`) of exactly those terms.
+        iox.Buffer is not translated (hand-written model + correspondence check only).
 Domain: `BufferOpValid` = non-negative Next/Grow sizes, int64 seek offsets.  The ErrTooLarge branch of `grow` is excluded
         by the stated bound `3 * (bytes written + bytes requested by Grow) ≤ maxAlloc` (2^48, the Go runtime's allocation
         limit; beyond it `makeSlice` fails and `grow` panics with ErrTooLarge by design).
 -/
 import Got.Lemmas.BytesCorollaries
+import Got.Lemmas.BytesStreamAst
 open Got.Model.Bytes Got.Spec.Bytes Got.Lemmas.Bytes
 
 /-- REFINEMENT (Buffer).  For every op sequence of the domain, the model's outputs are exactly the outputs of some run of
@@ -262,3 +267,162 @@ theorem C13_stream_old_counterexample :
     (s.seekOld 10 0).2 = .seek 10 .nil ∧ (s.seekOld 10 0).1.bytes? = none ∧
     (s.seek 10 0).2 = .seek 0 .invalidArgument ∧ (s.seek 10 0).1 = s := by
   decide
+
+
+/-! ## Translator tie: the OctetsStream operations as translated from the source
+
+`mdl buf pos` = the hand-written model's stream with the bytes `buf` (held as `BitVec 8` by the embedding, as `Nat` by the
+model) and cursor `pos`; a state of the embedding is `⟨buf, pos, alloc⟩ : St` (`pos : Nat`, i.e. `0 ≤ position`).
+Go `int` is an unbounded integer in the embedding (positions and lengths of real slices are < 2^63), `int64` is
+`BitVec 64`: `Seek`'s `num += offset` wraps and its comparisons are signed, exactly as in Go. -/
+section translated
+open Got.Model.MiniGoBytes (run St Val)
+open Got.Generated.AstIox Got.Lemmas.BytesStreamAst
+open Got.Model.BytesStreamAst (astCall outState astRun)
+
+/-- every method used below was translated completely (no construct outside the embedded fragment) -/
+theorem C13_translation_in_fragment :
+    OctetsStream_WriteNote = "ok" ∧ OctetsStream_WriteByteNote = "ok" ∧ OctetsStream_ReadNote = "ok" ∧
+    OctetsStream_ReadByteNote = "ok" ∧ OctetsStream_LenNote = "ok" ∧ OctetsStream_PositionNote = "ok" ∧
+    OctetsStream_BytesNote = "ok" ∧ OctetsStream_TidyNote = "ok" ∧ OctetsStream_ResetNote = "ok" ∧
+    OctetsStream_SeekNote = "ok" ∧ OctetsStream_WriteBoolNote = "ok" ∧ OctetsStream_WriteInt16Note = "ok" ∧
+    OctetsStream_WriteInt32Note = "ok" ∧ OctetsStream_WriteInt64Note = "ok" := by decide
+
+/-- `Write(data)`: result nil, the caller's slice unchanged, the model's `write` -/
+theorem C13_translated_source_Write_refines_model (buf data : List (BitVec 8)) (pos a fuel : Nat) (hf : 5 ≤ fuel) :
+    run table "OctetsStream.Write" fuel [.bytes data] ⟨buf, pos, a⟩ =
+      some (wOut [some data] ((mdl buf pos).write (data.map BitVec.toNat)) a) :=
+  s_write_ast' buf data pos a fuel hf
+
+theorem C13_translated_source_WriteByte_refines_model (buf : List (BitVec 8)) (b : BitVec 8) (pos a fuel : Nat)
+    (hf : 3 ≤ fuel) :
+    run table "OctetsStream.WriteByte" fuel [.bv 8 false b] ⟨buf, pos, a⟩ =
+      some (wOut [none] ((mdl buf pos).append [b.toNat]) a) :=
+  s_writeByte_ast' buf b pos a fuel hf
+
+/-- `Read(dst)` for every destination slice: count, error and the bytes copied into `dst` are the model's `read (len dst)` -/
+theorem C13_translated_source_Read_refines_model (buf dst : List (BitVec 8)) (pos a fuel : Nat) (hf : 14 ≤ fuel)
+    (hp : pos ≤ buf.length) :
+    run table "OctetsStream.Read" fuel [.bytes dst] ⟨buf, pos, a⟩ =
+      some (readOut' a dst ((mdl buf pos).read dst.length)) :=
+  s_read_ast buf dst pos a fuel hf hp
+
+theorem C13_translated_source_ReadByte_refines_model (buf : List (BitVec 8)) (pos a fuel : Nat) (hf : 5 ≤ fuel) :
+    run table "OctetsStream.ReadByte" fuel [] ⟨buf, pos, a⟩ = some (byteOut a (mdl buf pos).readByte) :=
+  s_readByte_ast' buf pos a fuel hf
+
+theorem C13_translated_source_Len_refines_model (buf : List (BitVec 8)) (pos a fuel : Nat) (hf : 2 ≤ fuel) :
+    run table "OctetsStream.Len" fuel [] ⟨buf, pos, a⟩ = some (.ret [.int (mdl buf pos).len] [] ⟨buf, pos, a⟩) :=
+  s_len_ast buf pos a fuel hf
+
+theorem C13_translated_source_Position_refines_model (buf : List (BitVec 8)) (pos a fuel : Nat) (hf : 2 ≤ fuel) :
+    run table "OctetsStream.Position" fuel [] ⟨buf, pos, a⟩ =
+      some (.ret [.int (mdl buf pos).position] [] ⟨buf, pos, a⟩) :=
+  s_position_ast buf pos a fuel hf
+
+/-- `Bytes()` = the model's `bytes?` in ALL states: outside the invariant (`pos > len`) both panic -/
+theorem C13_translated_source_Bytes_refines_model (buf : List (BitVec 8)) (pos a fuel : Nat) (hf : 2 ≤ fuel) :
+    run table "OctetsStream.Bytes" fuel [] ⟨buf, pos, a⟩ = some (bytesOut ⟨buf, pos, a⟩ (mdl buf pos).bytes?) :=
+  s_bytes_ast buf pos a fuel hf
+
+theorem C13_translated_source_Tidy_refines_model (buf : List (BitVec 8)) (pos a fuel : Nat) (hf : 8 ≤ fuel)
+    (hp : pos ≤ buf.length) :
+    run table "OctetsStream.Tidy" fuel [] ⟨buf, pos, a⟩ = some (unitOut (mdl buf pos).tidy a) :=
+  s_tidy_ast buf pos a fuel hf hp
+
+theorem C13_translated_source_Reset_refines_model (buf : List (BitVec 8)) (pos a fuel : Nat) (hf : 4 ≤ fuel) :
+    run table "OctetsStream.Reset" fuel [] ⟨buf, pos, a⟩ = some (unitOut (mdl buf pos).reset a) :=
+  s_reset_ast buf pos a fuel hf
+
+/-- `Seek(offset, whence)` for ALL int64 offsets (also where `num += offset` overflows and wraps) and ALL `whence`
+    values, in every state with `pos ≤ len buf < 2^63`: results and final state are the model's `seek` -/
+theorem C13_translated_source_Seek_refines_model (buf : List (BitVec 8)) (pos a : Nat) (o : BitVec 64) (w : Int)
+    (fuel : Nat) (hf : 16 ≤ fuel) (hp : pos ≤ buf.length) (hL : (buf.length : Int) < 2 ^ 63) :
+    run table "OctetsStream.Seek" fuel [.bv 64 true o, .int w] ⟨buf, pos, a⟩ =
+      some (seekOut a ((mdl buf pos).seek o.toInt w)) :=
+  s_seek_ast buf pos a o w fuel hf hp hL
+
+/-- non-vacuity: an overflowing case — Seek(maxInt64, SeekCurrent) at position 1 wraps to minInt64 and is rejected -/
+example : run table "OctetsStream.Seek" 16 [.bv 64 true (BitVec.ofInt 64 (2 ^ 63 - 1)), .int 1] ⟨[1, 2, 3], (1 : Nat), 0⟩ =
+    some (.ret [.bv 64 true 0, .err (some .InvalidArgument)] [none, none] ⟨[1, 2, 3], (1 : Nat), 0⟩) := by
+  rw [C13_translated_source_Seek_refines_model _ _ _ _ _ _ (by decide) (by decide) (by decide)]; rfl
+
+example : run table "OctetsStream.Seek" 16 [.bv 64 true (BitVec.ofInt 64 (-1)), .int 2] ⟨[1, 2, 3], (1 : Nat), 0⟩ =
+    some (.ret [.bv 64 true 2, .err none] [none, none] ⟨[1, 2, 3], (2 : Nat), 0⟩) := by
+  rw [C13_translated_source_Seek_refines_model _ _ _ _ _ _ (by decide) (by decide) (by decide)]; rfl
+
+/-- SEEK NEVER LEAVES THE DATA, stated of the interpreted generated term alone: for every int64 offset and every
+    `whence`, in every state with `0 ≤ pos ≤ len buf`, `Seek` does not panic and either returns `(p, nil)` with the
+    cursor at `p`, `0 ≤ p ≤ len buf`, or returns `(0, ErrInvalidArgument)` with the stream exactly as it was; the buffer
+    is never changed.  (This is the statement the seeded change "per-whence validation" breaks.) -/
+theorem C13_translated_source_Seek_stays_in_range (buf : List (BitVec 8)) (pos a : Nat) (o : BitVec 64) (w : Int)
+    (fuel : Nat) (hf : 16 ≤ fuel) (hp : pos ≤ buf.length) (hL : (buf.length : Int) < 2 ^ 63) :
+    (∃ p : Nat, p ≤ buf.length ∧ run table "OctetsStream.Seek" fuel [.bv 64 true o, .int w] ⟨buf, pos, a⟩ =
+        some (.ret [.bv 64 true (BitVec.ofNat 64 p), .err none] [none, none] ⟨buf, p, a⟩)) ∨
+    run table "OctetsStream.Seek" fuel [.bv 64 true o, .int w] ⟨buf, pos, a⟩ =
+        some (.ret [.bv 64 true 0, .err (some .InvalidArgument)] [none, none] ⟨buf, pos, a⟩) :=
+  seek_in_range_ast buf pos a o w fuel hf hp hL
+
+/-- TIDY IS INVISIBLE, stated of the interpreted generated terms alone: `Bytes()` after `Tidy()` = `Bytes()` before -/
+theorem C13_translated_source_Tidy_invisible (buf : List (BitVec 8)) (pos a fuel : Nat) (hf : 8 ≤ fuel)
+    (hp : pos ≤ buf.length) :
+    ∃ buf', run table "OctetsStream.Tidy" fuel [] ⟨buf, pos, a⟩ = some (.ret [] [] ⟨buf', (0 : Nat), a⟩) ∧
+      ∃ bs, run table "OctetsStream.Bytes" fuel [] ⟨buf, pos, a⟩ = some (.ret [.bytes bs] [] ⟨buf, pos, a⟩) ∧
+        run table "OctetsStream.Bytes" fuel [] ⟨buf', (0 : Nat), a⟩ = some (.ret [.bytes bs] [] ⟨buf', (0 : Nat), a⟩) :=
+  tidy_invisible_ast buf pos a fuel hf hp
+
+/-- ONE CALL of any of the eleven operations of the model (`AstDom` = the arguments are values of the Go parameter types:
+    byte payloads, int16/int32/int64 arguments and offsets), in any state with `pos ≤ len buf`: the interpreted
+    generated term returns the encoding of the model's step, ends in the model's state, and keeps `pos ≤ len buf`.
+    (Write, WriteByte, Read, ReadByte, Tidy, Reset, Seek: theorems above; WriteBool / WriteInt16/32/64: the codec
+    family's refinement of the same generated terms, `s_writeInt16_ast` …, plus `writeInt16_bridge` …: the bytes of the
+    two hand-written models agree.) -/
+theorem C13_translated_source_step_refines_model (fuel : Nat) (hf : 16 ≤ fuel) (buf : List (BitVec 8)) (pos a : Nat)
+    (hp : pos ≤ buf.length) (op : Stream.Op) (hop : AstDom op)
+    (hL : ((buf.length + StreamOpSize op : Nat) : Int) < 2 ^ 63) :
+    ∃ (buf' : List (BitVec 8)) (pos' : Nat),
+      astCall fuel ⟨buf, pos, a⟩ op = some (encOut a op ((mdl buf pos).step op)) ∧
+      outState (encOut a op ((mdl buf pos).step op)) = some ⟨buf', pos', a⟩ ∧
+      ((mdl buf pos).step op).1 = mdl buf' pos' ∧ pos' ≤ buf'.length ∧ buf'.length ≤ buf.length + StreamOpSize op :=
+  ast_step fuel hf buf pos a hp op hop hL
+
+/-- HEADLINE.  ANY sequence of operations (all eleven ops of the model, arguments in the range of their Go types) on a fresh stream, executed by interpreting the generated terms
+    call after call (`astRun`): no call panics or gets stuck; call by call the Go-level results are the encodings
+    (`encRun`) of outputs that some run of the ABSTRACT seekable FIFO produces (`StreamSpecRun`); the cursor ends inside
+    the data; and the interpreted `Bytes()` in the final state returns exactly the unread part `W[c..]` of that abstract
+    run's write history. -/
+theorem C13_translated_source_run_is_seekable_fifo (fuel : Nat) (hf : 16 ≤ fuel) (ops : List Stream.Op)
+    (hdom : ∀ op ∈ ops, AstDom op) (hsize : (streamSizes ops : Int) < 2 ^ 63) :
+    ∃ (buf' : List (BitVec 8)) (pos' : Nat) (g' : Ghost),
+      astRun fuel ⟨[], (0 : Nat), 0⟩ ops = some (⟨buf', pos', 0⟩, encRun 0 Stream.init ops) ∧
+      StreamSpecRun Ghost.init ops (Stream.init.run ops).2 g' ∧ StreamRel (mdl buf' pos') g' ∧
+      pos' ≤ buf'.length ∧
+      ∃ bs, run table "OctetsStream.Bytes" fuel [] ⟨buf', pos', 0⟩ = some (.ret [.bytes bs] [] ⟨buf', pos', 0⟩) ∧
+        bs.map BitVec.toNat = g'.W.drop g'.c := by
+  have hv : ∀ op ∈ ops, StreamOpValid op := by
+    intro op hop
+    have := hdom op hop
+    cases op <;> simp_all [StreamOpValid, AstDom]
+  obtain ⟨buf', pos', hrun, hfin, hp'⟩ := ast_run fuel hf ops [] 0 0 (Nat.le_refl _) hdom (by simpa using hsize)
+  obtain ⟨g', hspec, hrel⟩ := C13_stream_refines ops hv hsize
+  have hfin' : (Stream.init.run ops).1 = mdl buf' pos' := hfin
+  rw [hfin'] at hrel
+  refine ⟨buf', pos', g', hrun, hspec, hrel, hp', buf'.drop pos', ?_, ?_⟩
+  · rw [s_bytes_ast buf' pos' 0 fuel (by omega)]
+    simp [mdl, Stream.bytes?, hp', bytesOut, ← List.map_drop, map_ofNat_toNat']
+  · have hb := (C13_stream_unread _ _ hrel).1
+    simp only [mdl, Stream.bytes?, List.length_map, hp', if_true, Option.some.injEq, ← List.map_drop] at hb
+    exact hb
+
+/-- non-vacuity of the headline: a concrete sequence with a failing Seek, a short Read, Tidy and a wrap-free Seek -/
+example : ∃ (buf' : List (BitVec 8)) (pos' : Nat) (g' : Ghost),
+    astRun 16 ⟨[], (0 : Nat), 0⟩ [.write [1, 2, 3, 4, 5], .seek 10 0, .read 4, .tidy, .seek (-1) 2, .readByte, .writeInt32 (-2), .writeBool true] =
+      some (⟨buf', pos', 0⟩, encRun 0 Stream.init [.write [1, 2, 3, 4, 5], .seek 10 0, .read 4, .tidy, .seek (-1) 2, .readByte, .writeInt32 (-2), .writeBool true]) ∧
+    StreamSpecRun Ghost.init [.write [1, 2, 3, 4, 5], .seek 10 0, .read 4, .tidy, .seek (-1) 2, .readByte, .writeInt32 (-2), .writeBool true]
+      (Stream.init.run [.write [1, 2, 3, 4, 5], .seek 10 0, .read 4, .tidy, .seek (-1) 2, .readByte, .writeInt32 (-2), .writeBool true]).2 g' ∧
+    StreamRel (mdl buf' pos') g' ∧ pos' ≤ buf'.length ∧
+    ∃ bs, run table "OctetsStream.Bytes" 16 [] ⟨buf', pos', 0⟩ = some (.ret [.bytes bs] [] ⟨buf', pos', 0⟩) ∧
+      bs.map BitVec.toNat = g'.W.drop g'.c :=
+  C13_translated_source_run_is_seekable_fifo 16 (Nat.le_refl _) _ (by decide) (by decide)
+
+end translated
